@@ -19,7 +19,7 @@ def run(ctx):
                         hist_spec=("SafeKV", "AtomicMapHist", "Hist.cfg"), extra_mc=extra, walk_mode="cover" if quick else "probe",
                         sample_n=600 if quick else 10000, real_n=6000 if quick else 60000,
                         hist_budget=300000 if quick else 3000000, explore_budget=3000 if quick else 20000,
-                        sync_files=["mapz/safekv.go"])
+                        sync_files=["mapz/safekv.go"], blocking_api=False)
     if not ctx.violations:
         bulk(ctx, 4 if quick else 40)
     ctx.assumptions += ["int keys 1..4 and int values", "atomicity on the code: every lock-order interleaving of the step-level model (2x1 over 10 calls, 2x2 and 3x1 over the mutating core) is replayed on the real SafeKV under a deterministic scheduler whose sync shim turns RWMutex operations into park points; data-race freedom is an observation of the race detector on real goroutines",
